@@ -700,7 +700,7 @@ class Unit:
             if not only:
                 raise ExtractError(f"{label}: impl items need an `only` list")
             header = src.text[it.start:src.ct[it.body_open].end]
-            header = apply_token_substs(header, substs, self.report, label)
+            header = apply_token_substs(header, [dict(x, required=False) for x in substs], self.report, label)
             if "header" in icfg:
                 self.report.add("W2", label, f"impl header `{' '.join(header.split())}` -> `{icfg['header']}`")
                 header = icfg["header"] + " {"
@@ -855,6 +855,9 @@ class Unit:
             else:
                 ch = self._extract_item(icfg, variant, vacuity)
             self.chunks.append(ch)
+        def _inc2(mm):
+            return open(os.path.join(self.dir, mm.group(1)), encoding="utf-8").read()
+        spec = re.sub(r"^//@ include (\S+)\s*$", _inc2, spec, flags=re.M)
         self.chunks.append(Chunk("spec", "spec.rs (CHECKED)", spec))
         head = (f"// GENERATED by tools/vx.py for unit {self.name}"
                 + (f" variant={variant}" if variant else "") + (" vacuity-run" if vacuity else "")
